@@ -26,16 +26,16 @@ pub fn types(n: usize) -> Vec<DnTypeSpec> {
 }
 
 pub const TYPE_NAMES: [&str; 5] = ["CN", "O", "X1234", "X2543", "OU"];
-pub const VALUE_NAMES: [&str; 3] = ["Ua", "Ub", "Pa"];
+pub const VALUE_NAMES: [&str; 4] = ["Ua", "Ub", "Pa", "Ue"];
 
 pub fn values() -> Vec<(StrKind, &'static str)> {
-    vec![(StrKind::Utf8, "a"), (StrKind::Utf8, "b"), (StrKind::Printable, "a")]
+    vec![(StrKind::Utf8, "a"), (StrKind::Utf8, "b"), (StrKind::Printable, "a"), (StrKind::Utf8, "")]
 }
 
 pub fn ops(nt: usize) -> Vec<Op> {
     let mut v = Vec::new();
     for t in 0..nt as u8 {
-        for x in 0..3u8 {
+        for x in 0..values().len() as u8 {
             v.push(Op::Push(t, x));
         }
     }
@@ -377,7 +377,7 @@ pub fn run(prop: &str, tier: &str, replay: Option<&str>) -> i32 {
         let a4 = Alphabet::new(4);
         let ops4 = ops(4);
         let depth = if thorough { 6 } else { 5 };
-        let sec = Section::new(&format!("dfs-histories/depth<={}", depth), &format!("every one of the 16^k histories of length k <= {} over 4 types x 3 values, no state merging; oracle on every step", depth));
+        let sec = Section::new(&format!("dfs-histories/depth<={}", depth), &format!("every one of the {}^k histories of length k <= {} over 4 types x {} values (one of them empty), no state merging; oracle on every step", ops4.len(), depth, values().len()));
         // split by the first two operations for parallelism
         let prefixes: Vec<(Op, Op)> = ops4.iter().flat_map(|a| ops4.iter().map(move |b| (*a, *b))).collect();
         let count = std::sync::atomic::AtomicU64::new(0);
@@ -415,6 +415,83 @@ pub fn run(prop: &str, tier: &str, replay: Option<&str>) -> i32 {
             out
         });
         rep.extra.insert("dfs_histories".into(), serde_json::json!(count.load(std::sync::atomic::Ordering::Relaxed)));
+        rep.add(sec);
+    }
+    // 4b. histories with the name encoded IN PLACE after every step: the name lives inside one CertificateParams
+    // object that is encoded through &self (CSR and certificate) and then edited further; children are cloned
+    // from an object that has already been encoded. Whatever an encoding leaves behind in the object must not
+    // show in a later encoding.
+    {
+        let a3 = Alphabet::new(3);
+        let ops3 = ops(3);
+        let depth = if thorough { 6 } else { 5 };
+        let kp = match &ctx.subject {
+            SubjectSrc::Pair(k) => k,
+            _ => unreachable!(),
+        };
+        let sec = Section::new(&format!("encode-edit-histories/depth<={}", depth), &format!("every one of the {}^k histories of length k <= {} over 3 types x {} values in which the name is encoded (certification request through &self, and a self-signed certificate of a clone) after EVERY step and then edited further: each encoded subject equals the reference enumeration at that step", ops3.len(), depth, values().len()));
+        let prefixes: Vec<Op> = ops3.clone();
+        run::sweep_cases(&sec, &prefixes, &|p| hist_label(&[*p]), &|p| {
+            let mut out = Outcome::default();
+            fn encode_check(a: &Alphabet, params: &rcgen::CertificateParams, m: &RefDn, kp: &rcgen::KeyPair, hist: &[Op], out: &mut Outcome) {
+                let want = a.spec_of(m).abs();
+                match guarded(|| params.serialize_request(kp)) {
+                    Ok(Ok(csr)) => match refmodel::x509::decode_csr(csr.der()).value {
+                        Some(abs) if abs.subject == want => {}
+                        Some(abs) => {
+                            if out.findings.len() < 3 {
+                                out.findings.push(Finding::new("DN-ENCODED-STALE", "certificationRequestInfo.subject", format!("after [{}] (encoded after every step) the request says {:?} but the enumeration is {:?}", hist_label(hist), abs.subject, m)));
+                            }
+                        }
+                        None => out.findings.push(Finding::new("DECODE-FAILED", "csr", format!("after [{}]", hist_label(hist)))),
+                    },
+                    other => out.unexpected_err = Some(format!("{:?}", other.map(|r| r.map(|_| ())))),
+                }
+                match guarded(|| params.clone().self_signed(kp)) {
+                    Ok(Ok(cert)) => match decode_cert(cert.der()).value {
+                        Some(abs) if abs.subject == want && abs.issuer == want => {}
+                        Some(abs) => {
+                            if out.findings.len() < 3 {
+                                out.findings.push(Finding::new("DN-ENCODED-STALE", "tbs.subject/issuer", format!("after [{}] (encoded after every step) the certificate says {:?} / {:?} but the enumeration is {:?}", hist_label(hist), abs.subject, abs.issuer, m)));
+                            }
+                        }
+                        None => out.findings.push(Finding::new("DECODE-FAILED", "certificate", format!("after [{}]", hist_label(hist)))),
+                    },
+                    other => out.unexpected_err = Some(format!("{:?}", other.map(|r| r.map(|_| ())))),
+                }
+            }
+            #[allow(clippy::too_many_arguments)]
+            fn rec(a: &Alphabet, ops: &[Op], params: &rcgen::CertificateParams, m: &RefDn, kp: &rcgen::KeyPair, hist: &mut Vec<Op>, left: usize, out: &mut Outcome, n: &mut u64) {
+                for op in ops {
+                    let mut p2 = params.clone();
+                    let mut m2 = m.clone();
+                    a.real_apply(&mut p2.distinguished_name, *op);
+                    ref_apply(&mut m2, *op);
+                    hist.push(*op);
+                    *n += 1;
+                    encode_check(a, &p2, &m2, kp, hist, out);
+                    if left > 1 {
+                        rec(a, ops, &p2, &m2, kp, hist, left - 1, out, n);
+                    }
+                    hist.pop();
+                }
+            }
+            let mut params = rcgen::CertificateParams::default();
+            params.distinguished_name = DistinguishedName::new();
+            let mut m = RefDn::new();
+            // the empty name is encoded too, before the first edit
+            let mut n = 1u64;
+            encode_check(&a3, &params, &m, kp, &[], &mut out);
+            a3.real_apply(&mut params.distinguished_name, *p);
+            ref_apply(&mut m, *p);
+            let mut hist = vec![*p];
+            encode_check(&a3, &params, &m, kp, &hist, &mut out);
+            rec(&a3, &ops3, &params, &m, kp, &mut hist, depth - 1, &mut out, &mut n);
+            out.transitions = 3 * n;
+            out.digest = fnv(format!("{:?}", p).as_bytes());
+            sec.states.fetch_add(n, std::sync::atomic::Ordering::Relaxed);
+            out
+        });
         rep.add(sec);
     }
     // 5. stateright BFS and DFS: counts must agree with the own BFS
